@@ -471,7 +471,7 @@ func (p *partition) newSubscribeLoop(ctx context.Context, groupID, consumerID st
 		p.increaseSubscriberCount()
 		defer p.decreaseSubscriberCount()
 		if groupID != "" {
-			defer p.removeGroupSubscriber(groupID, consumerID)
+			defer p.removeGroupSubscriber(groupID, consumerID, cancel)
 		}
 
 		headersBuf := make([]byte, 28)
@@ -556,14 +556,17 @@ func (p *partition) newSubscribeLoop(ctx context.Context, groupID, consumerID st
 	}
 }
 
-func (p *partition) removeGroupSubscriber(groupID, consumerID string) {
+func (p *partition) removeGroupSubscriber(groupID, consumerID string, cancel <-chan struct{}) {
 	p.consumersMu.Lock()
 	defer p.consumersMu.Unlock()
 	sub, ok := p.consumers[groupID]
 	if !ok {
 		return
 	}
-	if sub.consumerID == consumerID {
+	// Only remove the entry if it still refers to this subscription. The same
+	// consumer may have re-subscribed in the meantime, in which case the entry
+	// belongs to its newer subscription.
+	if sub.consumerID == consumerID && sub.sub.Closed() == cancel {
 		delete(p.consumers, groupID)
 	}
 }
